@@ -123,8 +123,10 @@ func (h *harness) casCases(sc *scenario, thorough bool) []string {
 				e.Key = strings.ToUpper(e.Key)
 			}
 			kcanon := strings.ToLower(e.Key)
-			if v, ok := sim[sk{e.Space, kcanon}]; ok && r.Chance(75) {
+			if v, ok := sim[sk{e.Space, kcanon}]; ok && r.Chance(65) {
 				e.OldValue = hex.EncodeToString(v)
+			} else if ok && r.Chance(40) {
+				e.OldValue = "" // empty old value against a present key: must NOT match (unless the value is empty)
 			} else if !ok && r.Chance(70) {
 				e.OldValue = ""
 			} else {
